@@ -8,7 +8,7 @@ from monitors import node as mon
 
 
 def gen(seed, tier, out):
-    n = 70 if tier == "quick" else 1200
+    n = 150 if tier == "quick" else 2500
     with open(out, "w") as f:
         subprocess.run([str(brv.BIN / "node"), "gen", str(seed), str(n), tier, "c15"], stdout=f, check=True)
 
@@ -39,6 +39,7 @@ SPEC = Spec(
          "random bytes, invalid UTF-8 commands, truncated frames, headers with hostile bits; then ping and peer close (Run must return). Second "
          "stream `realrepo`: the production headers.Repository behind the node (hostile bits / timestamps in headers after verification)",
     assumptions=[
+        "`none` (the node is waiting for input) is recognised when the node has consumed every byte sent, is blocked in Read and nothing arrived for 60 ms (counting wrapper around the node's side of the connection), else after the op's time bound",
         "a single allocation request above env.mem (2 GiB in the scripts; worker limit 3.5 GiB) aborts the process, requests between 256 MiB and 4 GiB-2 are not generated (grey zone of the limit)",
         "the Go runtime's makeslice panics above maxAlloc = 2^48 (recovered since 97ac3db), tries to allocate below",
         "the dependency's decoders are modelled by contract (decode result, and the sizes passed to make); validated by the differential runs, not proved",
